@@ -69,8 +69,32 @@ def _status_of(value):
     return 1  # sys.exit("text") prints the text and exits 1
 
 
+@contextlib.contextmanager
+def int_str_limit(limit):
+    """Set the interpreter's int<->str digit limit (CPython >= 3.11) for the
+    duration of the block; `None` = the interpreter's default for a fresh process."""
+    if not hasattr(sys, "set_int_max_str_digits"):
+        yield
+        return
+    old = sys.get_int_max_str_digits()
+    if limit is None:
+        limit = getattr(sys.int_info, "default_max_str_digits", 4300)
+    sys.set_int_max_str_digits(limit)
+    try:
+        yield
+    finally:
+        sys.set_int_max_str_digits(old)
+
+
 def call_main(main, argv, prog, cwd=None):
-    """Call ``main(argv)`` as the console script would (``sys.exit(main())``)."""
+    """Call ``main(argv)`` as the console script would (``sys.exit(main())``):
+    every call starts from a fresh process's int->str limit and whatever the
+    command sets is undone afterwards."""
+    with int_str_limit(None):
+        return _call_main(main, argv, prog, cwd)
+
+
+def _call_main(main, argv, prog, cwd=None):
     r = CliResult()
     so, se = io.StringIO(), io.StringIO()
     old_argv = sys.argv
@@ -235,6 +259,35 @@ def draw(corpus, rng, ctx, mix):
         ctx.count("generator_gave_none:" + str(case["op"]).split(":")[0])
         return None
     return {"data": bytes(case["data"]), "op": str(case["op"]), "seed": str(case["seed"])}
+
+
+def zero_run(corpus, rng):
+    """A long run of zero bytes inserted into the body of one data unit (offsets
+    re-computed): in an unbounded region the interleaved exp-Golomb reader keeps
+    doubling the value for every 00 pair, so the next variable-length field
+    becomes an integer of thousands of bits.  Not one of the shared operators;
+    kept here because both command-line tools *print* such values."""
+    from vlib import vc2util
+
+    label, data = corpus[rng.randrange(len(corpus))]
+    try:
+        units = [bytearray(u) for u in vc2util.split_units(data)]
+    except Exception:
+        return None
+    cand = [i for i, u in enumerate(units) if len(u) > 13]
+    if not cand:
+        return None
+    heads = [i for i in cand if units[i][4] == vc2util.PC_SEQUENCE_HEADER]
+    i = rng.choice(heads) if heads and rng.random() < 0.6 else rng.choice(cand)
+    u = units[i]
+    body = len(u) - 13
+    pos = 13 + rng.choice([0, 0, 1, 1, 2, 3, rng.randrange(body + 1)])
+    if rng.random() < 0.5 and pos > 13:
+        # make sure the run starts inside a field: clear the low bits of the byte before it
+        u[pos - 1] &= 0xFF << rng.randrange(1, 8) & 0xFF
+    n = rng.choice([40, 600, 1800, 3600, 3600, 5000, 9000])
+    u[pos:pos] = bytes(n)
+    return {"data": vc2util.join_units(units), "op": "x:zero-run-%d" % n, "seed": label}
 
 
 # ---- fallback --------------------------------------------------------------
